@@ -219,8 +219,9 @@ NoStaleMount(T, S, op, res) == (op \in {"umount", "drop"} /\ res = "ok" /\ T.fil
 \* which defect leaves one (for the signature): judged on the state BEFORE the call
 StaleClass(S) == IF S.file # 0 /\ Dead(S, S.file) /\ S.conn[S.file].att THEN "conn-aborted"
                  ELSE IF Len(S.stack) > 1 THEN "mounted-twice" ELSE "other"
-\* R4: no operation hangs
-NoHang(res) == res # "hang"
+\* R4: no operation hangs (T: state before). After set_fuse_file on a mounted session the fuse file no longer tells
+\* whether the session is mounted: weaker reading, nothing is demanded of mount() then
+NoHang(T, res) == ~T.forced => res # "hang"
 \* R5: when the session and every channel and clone are gone nothing is left open
 Quiescent(S) == S.ses # "live" /\ LiveChans(S) = {} /\ S.clone = 0
 NoLeak(S) == Quiescent(S) => NFuse(S) = 0 /\ NEvent(S) = 0 /\ NEpoll(S) = 0
